@@ -56,6 +56,8 @@ class unix_disabled(uh.ifc.DisabledHash, uh.MinimalHandler):
     def using(cls, marker=None, **kwds):
         subcls = super().using(**kwds)
         if marker is not None:
+            # stored as text: disable() / enable() compare it with text
+            marker = to_native_str(marker, param="marker")
             if not marker or not cls.identify(marker):
                 raise ValueError(f"invalid marker: {marker!r}")
             subcls.default_marker = marker
